@@ -224,8 +224,10 @@ extern long verif_epoch_nd;
 extern unsigned int verif_epoch_d, verif_epoch_s;
 #endif	/* ECHSE_VERIF */
 
-#define DAISY_UNIX_BASE	(7977U)
-#define DAISY_BASE_YEAR	(1948U)
+/* days from 1900-03-00 to the unix epoch, years are counted Mar to Feb from
+ * 1900 so that nothing in the supported range (1901 to 2099) goes negative */
+#define DAISY_UNIX_BASE	(25509U)
+#define DAISY_BASE_YEAR	(1900U)
 
 static time_t
 __inst_to_epoch(echs_instant_t i)
@@ -236,10 +238,8 @@ __inst_to_epoch(echs_instant_t i)
 		306U, 337U, 0U, 31U, 61U, 92U,
 		122U, 153U, 184U, 214U, 245U, 275U
 	};
-	/* years run from Mar to Feb, Jan and Feb belong to the previous one;
-	 * counted from Mar 1900 so that nothing goes negative before 1948,
-	 * that's 48 * 365 + 12 days before DAISY_BASE_YEAR */
-	unsigned int by = i.y - (DAISY_BASE_YEAR - 48U) - (i.m <= 2U);
+	/* years run from Mar to Feb, Jan and Feb belong to the previous one */
+	unsigned int by = i.y - DAISY_BASE_YEAR - (i.m <= 2U);
 	/* no bullshit years in our lifetime */
 	unsigned int j0 = by * 365U + by / 4U;
 	/* yday by lookup */
@@ -247,7 +247,7 @@ __inst_to_epoch(echs_instant_t i)
 		? __mon_yday[i.m] + i.d
 		: 0U;
 	/* days since the unix epoch, negative before 1970 */
-	time_t nd = (time_t)(j0 + yd) - (time_t)(DAISY_UNIX_BASE + 48U * 365U + 12U);
+	time_t nd = (time_t)(j0 + yd) - (time_t)DAISY_UNIX_BASE;
 
 #if defined ECHSE_VERIF
 	verif_epoch_nd = nd;
@@ -259,8 +259,10 @@ __inst_to_epoch(echs_instant_t i)
 static echs_instant_t
 __epoch_to_inst(time_t t)
 {
-	unsigned int d = t / 86400U + DAISY_UNIX_BASE;
-	unsigned int s = t % 86400U;
+	/* floor division, T is negative before 1970 */
+	time_t td = t / 86400 - (t % 86400 < 0);
+	unsigned int d = (unsigned int)(td + DAISY_UNIX_BASE);
+	unsigned int s = (unsigned int)(t % 86400 + (t % 86400 < 0 ? 86400 : 0));
 	echs_instant_t ti;
 
 #if defined ECHSE_VERIF
